@@ -68,7 +68,43 @@ type vcAgent struct {
 	agent.Agent
 	mu    sync.Mutex
 	privs []interface{}
-	mode  string // "ok", "nolifetime" (refuses entries that carry a lifetime, like old Windows agents), "refuse"
+	mode  string // "ok", "nolifetime" (refuses entries that carry a lifetime, like old Windows agents), "refuse",
+	// "noremove" (refuses every removal), "noremove_once" (the first removal of each client run fails)
+	added    map[string]bool // key blobs of the certificates the client put in
+	removals int
+}
+
+func (a *vcAgent) Remove(k ssh.PublicKey) error {
+	a.mu.Lock()
+	a.removals++
+	n, mode := a.removals, a.mode
+	a.mu.Unlock()
+	if mode == "noremove" || (mode == "noremove_once" && n == 1) {
+		return errors.New("agent refused operation")
+	}
+	return a.Agent.Remove(k)
+}
+
+// addedBeside: labels under which a certificate the client installed sits next to another entry
+func (a *vcAgent) addedBeside() int {
+	keys, _ := a.List()
+	per := map[string]int{}
+	mine := map[string]bool{}
+	for _, k := range keys {
+		per[k.Comment]++
+		a.mu.Lock()
+		if a.added[string(k.Blob)] {
+			mine[k.Comment] = true
+		}
+		a.mu.Unlock()
+	}
+	n := 0
+	for l := range mine {
+		if per[l] > 1 {
+			n++
+		}
+	}
+	return n
 }
 
 func (a *vcAgent) Add(k agent.AddedKey) error {
@@ -79,7 +115,16 @@ func (a *vcAgent) Add(k agent.AddedKey) error {
 	if mode == "refuse" || (mode == "nolifetime" && k.LifetimeSecs > 0) {
 		return errors.New("agent refused operation")
 	}
-	return a.Agent.Add(k)
+	err := a.Agent.Add(k)
+	if err == nil && k.Certificate != nil {
+		a.mu.Lock()
+		if a.added == nil {
+			a.added = map[string]bool{}
+		}
+		a.added[string(k.Certificate.Marshal())] = true
+		a.mu.Unlock()
+	}
+	return err
 }
 
 // vcSeedAgent adds a certificate (issued by a throw-away CA) with the given comment; expired => its validity ended an hour ago
@@ -272,7 +317,13 @@ func TestVerif(t *testing.T) {
 		var allWire [][]byte
 		nreq := 0
 		errText := ""
+		addedBeside := 0
 		for round := 0; round < 2; round++ { // twice: a second installation must REPLACE the first in the agent
+			if ag != nil {
+				ag.mu.Lock()
+				ag.removals = 0
+				ag.mu.Unlock()
+			}
 			client, err := getHttpClient(pool, logger)
 			if err != nil {
 				t.Fatal(err)
@@ -302,6 +353,11 @@ func TestVerif(t *testing.T) {
 			nreq += rec.nreq
 			rec.mu.Unlock()
 			runs = append(runs, map[string]interface{}{"ok": err == nil})
+			if ag != nil {
+				if n := ag.addedBeside(); n > addedBeside {
+					addedBeside = n
+				}
+			}
 			if err != nil {
 				break
 			}
@@ -422,7 +478,7 @@ func TestVerif(t *testing.T) {
 		firstOK := runs[0]["ok"].(bool)
 		enc.Encode(map[string]interface{}{"i": n, "ev": "ClientRun", "case": map[string]interface{}{"pref": c.Pref, "mode": c.Mode, "agent": c.Agent, "agentmode": c.AMode},
 			"out": map[string]interface{}{"ok": firstOK, "bothRoundsOk": len(runs) == 2 && runs[1]["ok"].(bool), "error": errText, "requests": nreq,
-				"privateKeysKnown": len(privs), "wirePrivHits": hits, "publicHalvesSeenOnWire": pubSeen, "files": files, "agentLabels": labels,
+				"privateKeysKnown": len(privs), "wirePrivHits": hits, "publicHalvesSeenOnWire": pubSeen, "files": files, "agentLabels": labels, "addedBeside": addedBeside,
 				"ownLabels": func() int {
 					n := 0
 					for _, l := range labels {
